@@ -673,6 +673,10 @@ func main() {
 		{strings.TrimSuffix(*trDst, ".lean") + "Html.lean", st.translateHtml()},
 		{strings.TrimSuffix(*trDst, ".lean") + "Ui.lean", translateUi(loadUi(*repo))},
 		{strings.TrimSuffix(*trDst, ".lean") + "Roots.lean", st.translateRoots()},
+		{strings.TrimSuffix(*trDst, ".lean") + "ScanSM.lean", st.translateScanSM()},
+		{strings.TrimSuffix(*trDst, ".lean") + "Agg.lean", st.translateAgg()},
+		{strings.TrimSuffix(*trDst, ".lean") + "Web.lean", translateWeb(loadWeb(*repo))},
+		{strings.TrimSuffix(*trDst, ".lean") + "Func.lean", st.translateFunc()},
 	} {
 		if old, err := os.ReadFile(g.path); err != nil || !bytes.Equal(old, []byte(g.text)) {
 			if err := os.WriteFile(g.path, []byte(g.text), 0o644); err != nil {
